@@ -73,6 +73,7 @@ def games_for(ctx):
     rnd = gen_games.mixed_games(ctx.rng, 150 if ctx.quick else 3000, 3, 9, styles=("stopping", "exact"))
     games += rnd
     games += gen_games.twin_games(rnd + games[:40], ctx.rng, 60 if ctx.quick else 600)
+    games += gen_games.extra_families(ctx.rng, rnd, 12 if ctx.quick else 150)
     for g, m in gen_games.mixed_games(ctx.rng, 60 if ctx.quick else 1000, 3, 8, styles=("cyclic", "tiny", "players")):
         m = dict(m, full=True)
         games.append((gen_games.zero_rewards(g), m))
@@ -82,6 +83,7 @@ def games_for(ctx):
 def run(ctx):
     recs = sc.run_games(ctx, games_for(ctx), limit=10, tag="c03")
     sc.correspondence(ctx, recs, "cmp_pruned", "c03")
+    sc.padding_check(ctx, recs, ("pruned",), 40 if ctx.quick else 400, "c03")
     check(ctx, recs)
     for r in recs:
         if "timeout" in r.res and r.meta["style"] in gen_games.TERMINATING:
